@@ -294,6 +294,7 @@ var c05RNames = []string{"test.a", "test.a.set", "test.a.x", "test.a.x.set", "te
 	"test_a", "testxa.set", "testsa.x", "tes.a", "testa", "other.a", "test_a.x",
 	// shorter than the service name, and a strict prefix of it
 	"a", "tes", "t.a", "te.st"}
+var c05StarOwnership = []string{"test", "test.*", "test.*.*", "test.*.*.*", "test.*.*.*.*"}
 var c05Methods = []string{"set", "new", "foo", "login", "x"}
 
 func c05RandSpecs(r *rand.Rand) []c05HandlerSpec {
@@ -518,6 +519,10 @@ func c05Run(c *core.Ctx, b core.Batch) {
 			if cfgi%3 == 2 {
 				s.SetOwnedResources([]string{">"}, []string{">"})
 			}
+			if cfgi%3 == 1 {
+				// the own name space spelt out level by level with * wildcards
+				s.SetOwnedResources(c05StarOwnership, c05StarOwnership)
+			}
 		})
 		rg.C.NoGoID = true
 		if err := rg.start(); err != nil {
@@ -551,6 +556,19 @@ func c05Run(c *core.Ctx, b core.Batch) {
 			start := rg.C.Len()
 			inbox, done, delivered := rg.send(subject, payload)
 			if delivered == 0 {
+				if cfgi%3 == 1 && !malformed {
+					// with the level-by-level ownership every request for a resource of one to five
+					// tokens below the service name belongs to the service
+					if _, _, _, rname, _, _, _ := c05Reference(specs, subject); rname != "" {
+						for _, op := range c05StarOwnership {
+							if _, ok := ref.Match(op, rname); ok {
+								c.Violation("C05/owned-request-not-delivered:"+subject[:strings.IndexByte(subject, '.')], fmt.Sprintf("the service owns %q, which covers %q, but request %s reaches none of its subscriptions", op, rname, subject),
+									map[string]interface{}{"handlers": specs, "subject": subject, "owned": c05StarOwnership, "subscriptions": subjectsOf(rg.C.Subs())})
+								return true
+							}
+						}
+					}
+				}
 				return true // not a request the service subscribed to
 			}
 			c.Eval(1)
